@@ -54,7 +54,13 @@ def ask_all(ds, queries, tz=None, universe=None, subsec=None):
         if tz:
             dt = dt.tz_convert(tz)
         ba = dh.get_asset_latest_bid_ask_price(dt, sym)
-        out.append([num(ds.get_bid(dt, sym)), num(ds.get_ask(dt, sym)),
+
+        def direct(f):
+            try:
+                return num(f(dt, sym))
+            except Exception as e:
+                return 'raised ' + type(e).__name__
+        out.append([direct(ds.get_bid), direct(ds.get_ask),
                     num(dh.get_asset_latest_bid_price(dt, sym)), num(dh.get_asset_latest_ask_price(dt, sym)),
                     [num(ba[0]), num(ba[1])], num(dh.get_asset_latest_mid_price(dt, sym))])
     return out
@@ -64,6 +70,9 @@ def handler(c):
     ds = build(c['assets'], c['adjust'], symbols=c.get('csv_symbols'))
     loaded = {}
     for a in c['assets']:
+        if 'EQ:' + a not in ds.asset_bar_frames:
+            loaded[a] = []          # the file was not registered under its symbol
+            continue
         df = ds.asset_bar_frames['EQ:' + a]
         loaded[a] = [[int(idx.timestamp()) // 86400, num(r['Open']), num(r['Close']), num(r['Adj Close'])]
                      for idx, r in df.iterrows()]
@@ -109,8 +118,9 @@ def handler(c):
             o3 = []
             for a, t in c['queries']:
                 sym, dt = 'EQ:' + a, ts(t)
+                ba3 = dh3.get_asset_latest_bid_ask_price(dt, sym)
                 o3.append([num(dh3.get_asset_latest_bid_price(dt, sym)), num(dh3.get_asset_latest_ask_price(dt, sym)),
-                           num(dh3.get_asset_latest_mid_price(dt, sym))])
+                           num(dh3.get_asset_latest_mid_price(dt, sym)), num(ba3[0]), num(ba3[1])])
             return o3
         before = ask3()
         dh3.data_sources = [build(doubled, c['adjust'])]
